@@ -719,6 +719,8 @@ func (e *e4Engine) fn(f *ssa.Function, res *e4Result) {
 				key := e.descr(in, "make", shortDesc(x.Len, 3), ord)
 				if e.nonNegative(x.Len) && e.nonNegative(x.Cap) {
 					e.close(in, key, "D5 size is a constant, a len or converted from an unsigned type", "", true)
+				} else if pr := e.prover(); pr.lower(x.Len, pr.factsAt(b), 0) >= 0 && pr.lower(x.Cap, pr.factsAt(b), 0) >= 0 {
+					e.close(in, key, "D10 relational: size ≥ 0", "", false)
 				} else {
 					e.open(in, key, "make with a size that may be negative")
 				}
@@ -960,6 +962,19 @@ func (e *e4Engine) bounds(in ssa.Instruction, x ssa.Value, idx, lo, hi ssa.Value
 			}
 		}
 	}
+	// D10: relational prover
+	pr := e.prover()
+	if kind == "index" {
+		if by, ok := pr.proveIndex(in, x, idx); ok {
+			e.close(in, key, by, "", false)
+			return
+		}
+	} else {
+		if by, ok := pr.proveSlice(in, x, lo, hi); ok {
+			e.close(in, key, by, "", false)
+			return
+		}
+	}
 	e.open(in, key, "bounds check not eliminated by the compiler and not implied by a recognised dominating guard (facts: "+e.factsStr(in.Block())+")")
 }
 
@@ -1044,39 +1059,7 @@ func (e *e4Engine) parserTable() map[int64]types.Type {
 	if f == nil {
 		return tab
 	}
-	code := f.Params[0]
-	for _, b := range f.Blocks {
-		iff := ifOf(b)
-		if iff == nil {
-			continue
-		}
-		bo, ok := iff.Cond.(*ssa.BinOp)
-		if !ok || bo.Op != token.EQL {
-			continue
-		}
-		var k int64
-		if bo.X == ssa.Value(code) {
-			kk, ok := intConst(bo.Y)
-			if !ok {
-				continue
-			}
-			k = kk
-		} else if bo.Y == ssa.Value(code) {
-			kk, ok := intConst(bo.X)
-			if !ok {
-				continue
-			}
-			k = kk
-		} else {
-			continue
-		}
-		// the true successor allocates the option
-		for _, in := range b.Succs[0].Instrs {
-			if al, ok := in.(*ssa.Alloc); ok && al.Heap {
-				tab[k] = al.Type()
-			}
-		}
-	}
+	tab, _ = resolveSwitchTable(f, f.Params[0])
 	return tab
 }
 
@@ -1219,6 +1202,8 @@ func (e *e4Engine) callSizes(x *ssa.Call, ord map[string]int, res *e4Result) {
 			e.close(x, key, "D5 size is a constant, a len or converted from an unsigned type", "", false)
 		} else if e.guardedNonNeg(x.Call.Args[sizeArg], x.Block()) {
 			e.close(x, key, "D4 dominating guard implies size >= 0", "", false)
+		} else if pr := e.prover(); pr.lower(x.Call.Args[sizeArg], pr.factsAt(x.Block()), 0) >= 0 {
+			e.close(x, key, "D10 relational: size ≥ 0", "", false)
 		} else {
 			e.open(x, key, "size operand may be negative: "+shortName(f)+" panics on a negative count (slice bounds out of range)")
 		}
